@@ -96,6 +96,7 @@ pub fn property(_ctx: &Ctx) -> Property {
         assumptions: &["Change::decode() is the trusted bridge from change bytes to ops (cross-checked by C10/C18)", "grapheme width uses the unicode-segmentation crate"],
         subs: vec![
             sub::<Program, _, _>("conflict", 12800, 300000, |c| program_strategy(CONFLICT, if c.thorough() { 100 } else { 40 }, 4, 4), check),
+            sub::<Program, _, _>("counters", 6400, 150000, |c| program_strategy(COUNTER, if c.thorough() { 100 } else { 40 }, 4, 4), check),
             sub::<Program, _, _>("history", 9600, 200000, |c| program_strategy(HISTORY, if c.thorough() { 120 } else { 40 }, if c.thorough() { 5 } else { 3 }, 4), check),
             sub::<Program, _, _>("text", 6400, 100000, |c| program_strategy(TEXT, if c.thorough() { 100 } else { 40 }, 3, 4), check),
         ],
